@@ -26,8 +26,10 @@ T2 (every run):
 
 Oracle (independent of the model): for every setting and every canonical c
 without NUL: read(write(c)) == c; NUL => both converters and every stack are
-the identity; `exact` never changes anything; the fresh checkout reports no
-changes and stores/reads back the committed bytes.
+the identity; `exact` never changes anything; the CRLF reader only stores
+canonical content; settings named crlf* check out with CRLF only and settings
+named lf* check canonical text (without CR CR LF) out without any CRLF; the
+fresh checkout reports no changes and stores/reads back the committed bytes.
 
 Finding (family "crlf-repo-cr-cr-lf"): the settings that store CRLF and write
 LF lose one CR of every "\r\r\n" (classifier: reader is _to_crlf_converter,
@@ -49,6 +51,7 @@ import ast
 import io
 import itertools
 import os
+import re
 import sys
 
 from vlib import env
@@ -56,7 +59,8 @@ from vlib import env
 THEOREMS = [
     "roundtrip_iff", "roundtrip_lf_repo", "roundtrip_crlf_repo_partial", "crlf_repo_witness",
     "binary_untouched", "exact_identity", "output_chunking", "toLf_toCrlf", "toCrlf_toLf_iff",
-    "roundtrip_crlf_repo_fixed",
+    "roundtrip_crlf_repo_fixed", "toCrlf_canonical", "toLf_not_idempotent_witness",
+    "crlf_settings_write_crlf", "lf_settings_write_lf", "crlf_repo_settings_store_crlf",
 ]
 T1_EQUALITY_THEOREMS = ["eol_map_gen_eq", "eol_map_gen_keys_nodup", "converter_consts_gen_eq",
                         "roundtrip_iff_generated", "binary_untouched_generated"]
@@ -76,6 +80,7 @@ ALPHA = [b"\r", b"\n", b"\x00", b"a"]
 KEYS = ["exact", "native", "lf", "crlf", "native-with-crlf-in-repo", "lf-with-crlf-in-repo",
         "crlf-with-crlf-in-repo"]
 FAMILY = "crlf-repo-cr-cr-lf"
+BARE_LF = re.compile(rb"(?<!\r)\n")
 
 
 def hx(b):
@@ -86,6 +91,17 @@ def hx(b):
 def extract(ctx):
     sys.path.insert(0, os.path.join(env.VERIF, "tools"))
     import extract as ex
+    try:
+        return _extract(ex)
+    except Exception as e:
+        # never leave a stale table behind: the T1 theorems must not check against old source
+        ex.write_if_changed(os.path.join(env.VERIF, "lean/BreezyVerif/Generated/C45.lean"),
+                            "-- GENERATED by harness/checks/c45.py — extraction FAILED: %s\n"
+                            "import BreezyVerif.Model.C45\n" % str(e).replace("\n", " ")[:300])
+        raise
+
+
+def _extract(ex):
     path = os.path.join(env.REPO, "breezy/filters/eol.py")
     tree = ast.parse(open(path).read())
     conv = {"_to_lf_converter": "Conv.toLf", "_to_crlf_converter": "Conv.toCrlf"}
@@ -202,7 +218,7 @@ def _mods():
 
 
 def _write(filters, stack, chunks):
-    return b"".join(filters.filtered_output_bytes(list(chunks), stack))
+    return b"".join(filters.filtered_output_bytes(chunks, stack))
 
 
 def _read(ctx, filters, stack, d):
@@ -211,6 +227,10 @@ def _read(ctx, filters, stack, d):
     if size != len(t):
         ctx.violation(dict(kind="size", d=hx(d)), "filtered_input_file reports size %d for %d bytes" % (size, len(t)))
     return t
+
+
+def case0(win, key, c):
+    return dict(kind="rt", win=win, key=key, c=hx(c))
 
 
 def _family(eolmod, stack, c):
@@ -276,11 +296,27 @@ def _settings(ctx, filters, tables, contents, tag, rng=None):
                 back = _read(ctx, filters, stack, disk)
                 canonical = rd == c
                 binary = b"\x00" in c
+                if (not canonical and getattr(stack[0].reader, "__name__", "") == "_to_crlf_converter"
+                        and _read(ctx, filters, stack, rd) != rd):
+                    ctx.violation(case0(win, key, c), "%s: the CRLF reader stores %r for %r, which is not canonical "
+                                  "(reading it again gives %r)" % (key, rd, c, _read(ctx, filters, stack, rd)))
                 case = dict(kind="rt", win=win, key=key, c=hx(c))
                 if binary and (disk != c or rd != c):
                     ctx.violation(case, "binary content converted by %s: %r -> tree %r, read %r" % (key, c, disk, rd))
                 if key == "exact" and (disk != c or rd != c):
                     ctx.violation(case, "'exact' changed %r" % c)
+                if not binary:
+                    # what the setting names promise about the working tree
+                    writes_crlf = key in ("crlf", "crlf-with-crlf-in-repo") or (win and key.startswith("native"))
+                    writes_lf = key in ("lf", "lf-with-crlf-in-repo") or (not win and key.startswith("native"))
+                    if key.endswith("-with-crlf-in-repo") and BARE_LF.search(rd):
+                        ctx.violation(case, "%s must store CRLF but %r is read as %r" % (key, c, rd))
+                    if writes_crlf and BARE_LF.search(disk):
+                        ctx.violation(case, "%s%s must write CRLF but %r is checked out as %r"
+                                      % (key, " (win32)" if win else "", c, disk))
+                    if writes_lf and canonical and b"\r\r\n" not in c and b"\r\n" in disk:
+                        ctx.violation(case, "%s%s must write LF but canonical %r is checked out as %r"
+                                      % (key, " (win32)" if win else "", c, disk))
                 if canonical and not binary and back != c:
                     fam = _family(mod, stack, c)
                     ctx.count("roundtrip-fails:" + key)
@@ -293,16 +329,22 @@ def _settings(ctx, filters, tables, contents, tag, rng=None):
                 ctx.count("canonical" if canonical else "non-canonical")
                 if binary:
                     ctx.count("binary")
-                if rng is not None and len(c) > 1 and rng.random() < 0.5:
-                    cuts = sorted(rng.randint(0, len(c)) for _ in range(rng.randint(1, 3)))
+                disk_chunked = disk
+                if len(c) > 1 and (tag == "fixed" or (rng is not None and rng.random() < 0.5)):
+                    if tag == "fixed":
+                        cuts = [len(c) // 2]
+                    else:
+                        cuts = sorted(rng.randint(0, len(c)) for _ in range(rng.randint(1, 3)))
                     chunks = [c[i:j] for i, j in zip([0] + cuts, cuts + [len(c)])]
-                    if _write(filters, stack, chunks) != disk:
-                        ctx.violation(case, "output depends on chunking: %r" % (chunks,))
+                    disk_chunked = _write(filters, stack, iter(chunks))
+                    if disk_chunked != disk:
+                        ctx.violation(case, "%s: output depends on chunking: %r -> %r, unchunked %r"
+                                      % (key, chunks, disk_chunked, disk))
                     ctx.count("chunked")
                 else:
                     chunks = [c]
                 for op, arg, out in (("in", hx(c), rd),
-                                     ("out", ",".join(x.hex() or "_" for x in chunks) or "-", disk),
+                                     ("out", ",".join(x.hex() or "_" for x in chunks) or "-", disk_chunked),
                                      ("rt", hx(c), back)):
                     cases.append([tag, op, win, key, hx(c)])
                     lines.append("%s %s %s %s" % (op, W, key, arg))
@@ -342,13 +384,16 @@ def _tree_part(ctx, filters, eolmod, key, contents, fmt="2a"):
     try:
         wt = env.make_tree(fmt)
         names = []
+        ok = [c for c in contents if _read(ctx, filters, stack, c) == c]
+        ctx.count("tree-skipped-noncanonical", len(contents) - len(ok))
+        contents = ok
         for i, c in enumerate(contents):
             name = "f%02d" % i
             with open(os.path.join(wt.basedir, name), "wb") as f:
                 f.write(c)
             names.append(name)
         wt.add(names)
-        wt.commit("add")
+        rev1 = wt.commit("add")
         wt2 = wt.controldir.sprout(os.path.join(env.fresh_dir("co"), "t")).open_workingtree()
         with wt2.lock_read():
             basis = wt2.basis_tree()
@@ -356,6 +401,13 @@ def _tree_part(ctx, filters, eolmod, key, contents, fmt="2a"):
                 changed = {ch.path[1] or ch.path[0] for ch in wt2.iter_changes(basis)}
                 stored = {n: basis.get_file_text(n) for n in names}
             readback = {n: wt2.get_file_text(n) for n in names}
+        # a commit in the fresh checkout must not see any file as modified either
+        wt2.commit("nothing changed")
+        with wt2.lock_read():
+            basis2 = wt2.basis_tree()
+            with basis2.lock_read():
+                recommitted = {n for n in names if basis2.get_file_revision(n) != rev1}
+                stored2 = {n: basis2.get_file_text(n) for n in names}
         cases, lines, outs = [], [], []
         for name, c in zip(names, contents):
             case = dict(kind="tree", key=key, fmt=fmt, c=hx(c))
@@ -370,6 +422,9 @@ def _tree_part(ctx, filters, eolmod, key, contents, fmt="2a"):
                 ctx.violation(case, "%s: fresh checkout of canonical %r (on disk %r) reports a change" % (key, c, disk), family=fam)
             if readback[name] != c:
                 ctx.violation(case, "%s: fresh checkout reads %r back as %r" % (key, c, readback[name]), family=fam)
+            if name in recommitted or stored2[name] != c:
+                ctx.violation(case, "%s: a commit in the fresh checkout of canonical %r (on disk %r) records the file "
+                              "as modified (new text %r)" % (key, c, disk, stored2[name]), family=fam)
             ctx.case(["tree", fmt, key, hx(c)], nontrivial=(key != "exact" and (b"\r" in c or b"\n" in c)))
             ctx.count("tree-file:" + key)
             cases.append(["tree-disk", key, hx(c)])
@@ -397,7 +452,8 @@ def run(ctx, L=None, L2=None, nrand=None):
     tables = [(False, eolmod), (True, winmod)]
 
     # corpus-like fixed cases first
-    fixed = [b"", b"a\r\r\n", b"\r\r\n", b"a\r\n", b"a\n", b"\r", b"\n\r", b"a\r\r\r\n\r\n", b"a\r\n\x00", b"\x00"]
+    fixed = [b"", b"a\r\r\n", b"\r\r\n", b"a\r\n", b"a\n", b"\r", b"\n\r", b"a\r\r\r\n\r\n", b"a\r\n\x00", b"\x00",
+             b"a\n\x00", b"\x00\r\n"]
     _settings(ctx, filters, tables, fixed, "fixed")
     _unknown_keys(ctx, eolmod)
 
